@@ -233,13 +233,13 @@ func projectResult(t *Trace, scn int, data lokiapi.QueryResponseData) {
 // sqOf projects the square of a value (stddev is compared through its square).
 func sqOf(v float64) F { return ratOf(v * v) }
 
-// msOf projects a Prometheus timestamp (float seconds) to [seconds, milliseconds].
+// msOf projects a Prometheus timestamp (float seconds, millisecond resolution) to [seconds, nanoseconds].
 func msOf(v float64) []int {
 	ms := int64(v*1000 + 0.5)
 	if v < 0 {
 		ms = int64(v*1000 - 0.5)
 	}
-	return []int{int(ms / 1000), int(ms % 1000)}
+	return []int{int(ms / 1000), int(ms%1000) * 1000000}
 }
 
 // ---- random driver: larger inventories than TLC enumerates, same vocabulary
@@ -288,6 +288,10 @@ func genFrames(r *rand.Rand, ctr, n int, sorted bool, tieHeavy bool) []Frame {
 		ns := 0
 		if !tieHeavy && r.Intn(3) == 0 {
 			ns = r.Intn(1000) * 1000000
+		}
+		if !tieHeavy && sorted && r.Intn(4) == 0 {
+			// fractions with leading zeros (and only the digits 0-7): .020000000 is twenty milliseconds
+			ns = []int{10000000, 20000000, 17000000, 70000000, 1000, 7, 1234567}[r.Intn(7)]
 		}
 		fs = append(fs, Frame{Typ: 1 + r.Intn(2), TS: []int{sec, ns}, Msg: B(fmt.Sprintf("c%d-%d", ctr, j+1))})
 	}
